@@ -1,0 +1,48 @@
+//go:build verif
+
+package mq
+
+import "io"
+
+// This file is compiled only with the build tag "verif". It gives the
+// verification harness access to the unexported variable byte integer codec
+// and a snapshot of the package-level state; it adds no behaviour.
+
+// VerifVbintFill returns the wire form of v as the encoders write it.
+func VerifVbintFill(v uint32) []byte {
+	x := vbint(v)
+	b := make([]byte, x.width())
+	x.fill(b, 0)
+	return b
+}
+
+// VerifVbintUnmarshal decodes with the in-memory decoder and reports the
+// value and the width the buffer reader advances by.
+func VerifVbintUnmarshal(b []byte) (value uint32, width int, err error) {
+	var x vbint
+	if err := x.UnmarshalBinary(b); err != nil {
+		return 0, 0, err
+	}
+	return uint32(x), x.width(), nil
+}
+
+// VerifVbintReadFrom decodes with the streaming decoder used for the fixed
+// header.
+func VerifVbintReadFrom(r io.Reader) (value uint32, n int64, err error) {
+	var x vbint
+	n, err = x.ReadFrom(r)
+	return uint32(x), n, err
+}
+
+// VerifGlobals returns a snapshot of the package-level variables.
+func VerifGlobals() []byte {
+	out := append([]byte{}, mqtt5...)
+	out = append(out, byte(len(_LEN)), byte(len(typeNames)))
+	t := 0
+	for t < 256 {
+		out = append(out, typeNames[byte(t)]...)
+		out = append(out, 0)
+		t += 16
+	}
+	return out
+}
